@@ -9,7 +9,7 @@ extern "C" void harness_scanRule(void) {
   uint64_t ruleSig = nondet_u64();
   RuleInfo& ri = newRuleInfo(16, ruleSig);
   ri.result.builtAt = nondet_u64(); ri.result.computedAt = nondet_u64(); ri.result.signature = CommandSignature(nondet_u64());
-  VF_ASSUME(ri.result.computedAt <= ri.result.builtAt && ri.result.builtAt <= E);     // Inv(i)
+  VF_ASSUME(ri.result.builtAt <= E && (ri.result.builtAt == 0 ? ri.result.computedAt <= E : ri.result.computedAt <= ri.result.builtAt));     // Inv(i): computedAt <= builtAt <= epoch, or builtAt == 0 (never built, or its task was cancelled: computedAt then keeps its old value)
   uint8_t st = nondet_u8();
   VF_ASSUME(st == 0 || st == 2 || st == 3 || st == 6);   // Incomplete, NeedsToRun, DoesNotNeedToRun, Complete (states without a pending record)
   ri.state = (RuleInfo::StateKind)st;
